@@ -21,7 +21,7 @@ pub static DEF: CheckDef = CheckDef {
            smooth family adds div, powf, ln, exp, reciprocal, sigmoid, softmax with operand domains enforced from \
            actual values), mixed tracked/untracked leaves; readme: the README loop with random constants, shapes, \
            threshold and iteration count (data-dependent branch); chain: self-product chains of depth 2..60; fanin: \
-           wide sums of products sharing leaves. Seeds omitted / ones / non-uniform integers. Non-trivial = some \
+           wide sums of products sharing leaves; deep-chain: multiplication chains of depth 500 / 2000 / 30000 / 100000 differentiated in a process of their own on an 8 MiB stack. Seeds omitted / ones / non-uniform integers. Non-trivial = some \
            tracked leaf received a non-zero gradient and the graph has at least two root-to-leaf paths; distinct = \
            distinct (program text without data, seed kind).",
     floors,
@@ -51,6 +51,7 @@ fn families(t: Tier) -> Vec<(&'static str, u64)> {
         ("readme", t.n(3_000, 60_000)),
         ("chain", t.n(400, 6_000)),
         ("fanin", t.n(600, 20_000)),
+        ("deep-chain", 4),
     ]
 }
 fn floors(_t: Tier) -> Vec<(&'static str, u64)> {
@@ -208,7 +209,25 @@ pub fn gen(ctx: &Ctx, fam: &str, k: u64, r: &mut Rng) -> Program {
     }
 }
 
+const DEEP: [usize; 4] = [500, 2_000, 30_000, 100_000];
+
 pub fn run_case(ctx: &mut Ctx, fam: &str, k: u64, r: &mut Rng) {
+    if fam == "deep-chain" {
+        // "any depth": the pass must not need stack proportional to the depth of the graph
+        let depth = DEEP[k as usize % DEEP.len()];
+        ctx.case(&format!("deep-chain|{}", depth), true);
+        ctx.count("deep_chain_probes", 1);
+        ctx.sample("deep-chain", || format!("x = a * 1 repeated {} times on an 8 MiB stack; backward(None); drop", depth));
+        match deep_chain_probe(depth, "backward") {
+            Ok(None) => ctx.meta(|| format!("deep-chain {} ok", depth)),
+            Ok(Some((kind, detail))) => {
+                ctx.meta(|| format!("deep-chain {} {}", depth, kind));
+                ctx.violation(&format!("C01|deep-chain|{}|depth={}|stack=8MiB", kind, depth), detail)
+            }
+            Err(e) => ctx.count(&format!("deep_chain_probe_unavailable({})", e.chars().take(30).collect::<String>()), 1),
+        }
+        return;
+    }
     let p = gen(ctx, fam, k, r);
     let rr = match eval_ref_plain(&p) {
         Some(x) => x,
